@@ -51,6 +51,13 @@ Next ==
             /\ cnt' = [cnt EXCEPT !.sends = @ + 1,
                                   !.votes = @ + Cardinality({k \in 1..Len(ev.msgs) : Reveals(ev.msgs[k]).term > 0})]
             /\ UNCHANGED leaders
+       [] ev.ev = "Boot" /\ ev.saved ->
+            \* a vote that was told to the world must still be known after the restart, otherwise
+            \* the replica is free to vote again in that term
+            LET v == votes[ev.h]
+                lost == {t \in DOMAIN v : t > ev.term \/ (t = ev.term /\ v[t] # ev.vote)}
+            IN /\ bad' = IF lost = {} THEN bad ELSE Flag(ev, "vote_forgotten_at_restart", lost \cup {ev.h})
+               /\ UNCHANGED <<votes, leaders, cnt>>
        [] ev.ev = "Leader" /\ ev.leader # 0 ->
             /\ leaders' = IF ev.term \in DOMAIN leaders THEN leaders
                           ELSE [t \in (DOMAIN leaders) \cup {ev.term} |-> IF t = ev.term THEN ev.leader ELSE leaders[t]]
